@@ -1,0 +1,18 @@
+//go:build verif
+
+package basestream
+
+// Machine-checked contracts for /verif (read as text by the VC generator; no code).
+//
+// Assumed of the application's locator and payload types (they are inputs of the seeder): Compare and the payload
+// sizes are functions of the value, Inc returns a locator.
+//@ iface Locator.Compare
+//@   pure
+//@ iface Locator.Inc
+//@   ensures result != nil
+//@ iface Payload.Len
+//@   pure
+//@ iface Payload.TotalSize
+//@   pure
+//@ iface Payload.TotalMemSize
+//@   pure
